@@ -21,9 +21,9 @@ CLAIMED = {
          "Known genuine non-idempotence classes are listed in known_findings.json by signature.",
          "G->R->V: Formatter!Fixpoint on recorded Reformat events", "5 C06"),
  "C07": ("Same traces: Formatter!Total on every Format event (outcome ok/parse_error only, ok iff the input parses by an independent parse, thread-CPU bound); "
-         "worker crashes and timeouts are recorded as events, never tool errors.",
+         "worker crashes and timeouts are recorded as events, never tool errors; unparseable text (MC_Invalid: a template with one unbalanced token) with no, empty, inverted and out-of-bounds ranges must give a parse error.",
          "G->R->V: Formatter!Total on recorded Format events (panic/crash/timeout are data)", "5 C07"),
- "C03": ("Catalogue of ~55 construct templates x every inter-token slot x comment kind (MC_Trivia; NTok cross-checked against the renderer), each formatted under every column width and "
+ "C03": ("Catalogue of ~57 construct templates (bare and with comments) x every inter-token slot x comment kind (MC_Trivia; NTok cross-checked against the renderer), each formatted under every column width and "
          "every collapse / call-parentheses value; TLC judges the comment census (own lexer) and the code-token normal form on every recorded Format event; plus the repository's test inputs.",
          "G->R->V: Formatter!CensusKept + TokensKept on recorded traces of slot-enumerated comment placements", "5 C03"),
  "C04": ("Exhaustive: every quoted body over the 18-symbol escape alphabet up to length 3 (and length 4 over the 7 escape-critical symbols) in both quote kinds, under 3 dialects, 4 quote styles x 2 line endings, "
